@@ -101,7 +101,12 @@ impl Statement {
                 // TODO: Handle array values.
                 if !matches!(rhe, Update { .. }) {
                     if let Some(value) = rhe.value() {
-                        env.add_variable(var, value);
+                        // Only local variables are versioned (in SSA form). Signals and
+                        // components may be assigned in several places and on some paths
+                        // only, so a value cannot be attributed to the name.
+                        if meta.type_knowledge().is_local() {
+                            env.add_variable(var, value);
+                        }
                         result = result || meta.value_knowledge_mut().set_reduces_to(value.clone());
                     }
                 }
